@@ -9,7 +9,7 @@ args = sys.argv[1:]
 checks = ALL
 if "--checks" in args:
     i = args.index("--checks"); checks = args[i + 1].split(","); del args[i:i + 2]
-names = args or sorted(os.listdir("/verif/neutral"))
+names = args or sorted(n for n in os.listdir("/verif/neutral") if n.startswith("N"))
 bad = 0
 for n in names:
     d = os.path.join("/verif/neutral", n)
